@@ -330,6 +330,9 @@ func extractOption(nodes map[string]*chanCall, opts ...Option) (map[string][]any
 				continue
 			}
 			for name, c := range nodes {
+				if c.action.isPassthrough {
+					continue // a pass-through node takes no options
+				}
 				if c.action.optionType == nil {
 					// subgraph
 					optMap[name] = append(optMap[name], opt)
@@ -349,6 +352,11 @@ func extractOption(nodes map[string]*chanCall, opts ...Option) (map[string][]any
 				return nil, fmt.Errorf("option has designated an unknown node: %s", path)
 			}
 			curNodeKey := path.path[0]
+
+			if curNode.action.isPassthrough && (len(path.path) > 1 || len(opt.options) > 0) {
+				// neither a component with options nor a graph with nodes below it
+				return nil, fmt.Errorf("option has designated a pass-through node or a path below it: %s", path)
+			}
 
 			if len(path.path) == 1 {
 				if len(opt.options) == 0 {
